@@ -22,7 +22,7 @@ var resFaults = []string{"rotate-keep-old", "rotate-drop-old", "restart-keep-key
 var resReach = []string{"resumed", "full-handshake", "resumed-with-old-key-ticket-refreshed", "fallback-after-rotation", "fallback-suite-change", "fallback-client-auth", "fallback-tickets-off", "fallback-evicted", "fallback-forged-ticket", "completeness-checked", "soundness-checked", "master-equal-checked", "wire-decoded-resumed", "gm-mode", "tls-mode", "client-cert-in-ticket", "history>=4", "refclient-tls12", "wire-decoded-resumed-tls12", "policy-forbids-failed", "ticket-seen-in-failed-handshake", "per-connection-config"}
 
 func init() {
-	register(Family{Name: "tls-resumption", Prop: "C16", ID: 1601, Weight: 1, FaultNames: resFaults, ReachNames: resReach, Run: runResumption})
+	register(Family{Name: "tls-resumption", Prop: "C16", ID: 1601, Weight: 4, FaultNames: resFaults, ReachNames: resReach, Run: runResumption})
 }
 
 type resSrv struct {
